@@ -74,9 +74,12 @@ FD_ENABLED = False      # set by the C01 property: every Jacobian obtained by ru
 FD_RESULTS = []         # Richardson-extrapolated central differences of the implementation's own compute
 
 
-def _block_err(a, b, add):
+def _block_err(a, b, add, noise=0.0):
+    """relative difference of two Jacobian blocks; `noise` is the round-off level of the finite differences in the same
+    units (a difference that round-off of the OUTPUTS alone explains is not a disagreement)"""
     m = max(float(np.abs(a).max()) if a.size else 0.0, float(np.abs(b).max()) if b.size else 0.0)
-    return (float(np.abs(a - b).max()) if a.size else 0.0) / (m + add)
+    d = (float(np.abs(a - b).max()) if a.size else 0.0)
+    return max(0.0, d - noise) / (m + add)
 
 
 def fd_check(prob, comp, inputs, outputs, J):
@@ -86,6 +89,8 @@ def fd_check(prob, comp, inputs, outputs, J):
         return np.concatenate([np.asarray(prob.get_val(o), dtype=float).ravel() for o in outputs])
     rec = {"comp": type(comp).__name__, "errs": {}, "worst": 0.0}
     blocks = {}
+    noises = {}
+    eps = 2.0 ** -52
     with warnings.catch_warnings():
         warnings.simplefilter("ignore")
         for name, val in inputs.items():
@@ -94,6 +99,7 @@ def fd_check(prob, comp, inputs, outputs, J):
             bm = float(np.abs(flat).max()) if flat.size else 0.0
             cols = []
             scales = []
+            noise = 0.0
             for i in range(flat.size):
                 sc = max(abs(flat[i]), 1e-3 * bm) if bm > 0 else 1.0
                 h = 1e-4 * sc
@@ -104,13 +110,16 @@ def fd_check(prob, comp, inputs, outputs, J):
                     d.append((fp - fm) / (2 * hh))
                 cols.append((4 * d[1] - d[0]) / 3)
                 scales.append(sc)
+                # round-off of the differenced outputs: |f| eps / (h/2), amplified by the Richardson weights (4+1)/3, x safety 20
+                noise = max(noise, 20.0 * (5.0 / 3.0) * eps * float(np.abs(fp).max() if fp.size else 0.0) / (h / 2) * sc)
             prob.set_val(name, x0); prob.run_model()
             fdJ = np.array(cols).T if cols else np.zeros((0, 0))
             repJ = np.concatenate([np.asarray(J[(o, name)], dtype=float).reshape(-1, flat.size) for o in outputs], axis=0)
             blocks[name] = (repJ * np.array(scales)[None, :], fdJ * np.array(scales)[None, :])
+            noises[name] = noise
     overall = max([max(float(np.abs(a).max()) if a.size else 0.0, float(np.abs(b).max()) if b.size else 0.0) for a, b in blocks.values()] + [0.0])
     for name, (a, b) in blocks.items():
-        e = _block_err(a, b, 2.0 ** -17 * overall + 1e-300)
+        e = _block_err(a, b, 2.0 ** -17 * overall + 1e-300, noises.get(name, 0.0))
         rec["errs"][name] = e; rec["worst"] = max(rec["worst"], e)
     rec["inputs"] = {k: np.asarray(v).tolist() for k, v in inputs.items()}
     return rec
